@@ -291,7 +291,8 @@ def run_check(prop, tier, seed, nruns, workers=None, batch=None, wall_cap=3000,
     from . import pool
     jobs = [(prop, seed, tier, b, int(wall_cap), params) for b in idx_batches]
     crashed_batches = []
-    for (bi, status, payload) in pool.run_jobs(_worker_batch, jobs, workers, deadline=deadline, job_timeout=wall_cap):
+    skipped_by_budget = []
+    for (bi, status, payload) in pool.run_jobs(_worker_batch, jobs, workers, deadline=deadline, job_timeout=wall_cap + 300):
         if status == 'ok':
             for r in payload:
                 (harness_errors if 'harness_error' in r else results).append(r)
@@ -302,7 +303,7 @@ def run_check(prop, tier, seed, nruns, workers=None, batch=None, wall_cap=3000,
         elif status == 'timeout':
             harness_errors.append({'run': idx_batches[bi][0], 'harness_error': 'batch starting at run %d exceeded %ss' % (idx_batches[bi][0], wall_cap)})
         elif status == 'deadline':
-            harness_errors.append({'run': None, 'harness_error': 'wall cap %ss reached before batch %d ran' % (wall_cap, bi)})
+            skipped_by_budget.append(bi)        # the time budget of the tier is used up: not an error
     # a worker died (fatal signal in the code under test?): re-run its batch run by run, each in its own process
     for (bi, why) in crashed_batches:
         singles = [(prop, seed, tier, [r], int(wall_cap), params) for r in idx_batches[bi]]
@@ -316,6 +317,12 @@ def run_check(prop, tier, seed, nruns, workers=None, batch=None, wall_cap=3000,
                 results.append(_crash_result(prop, seed, r, payload))
             else:
                 harness_errors.append({'run': r, 'harness_error': 'isolated re-run of run %d: %s %r' % (r, status, payload)})
+    if skipped_by_budget:
+        extra_evidence = dict(extra_evidence or {})
+        extra_evidence['time_budget_s'] = wall_cap
+        extra_evidence['runs_not_executed_because_time_budget_was_used_up'] = sum(len(idx_batches[b]) for b in skipped_by_budget)
+        if not quiet:
+            print('%s: time budget of %ds used up after %d of %d runs (not an error)' % (prop, wall_cap, len(results), nruns))
     results.sort(key=lambda r: r['run'])
     return finish(prop, tier, seed, results, harness_errors, t0, eng,
                   min_budget=min_budget, min_wall=min_wall, params=params,
